@@ -3,6 +3,7 @@ rsmodel: the model driver. `rsmodel <case files…>` replays each case on the Le
 the monitors on the implementation's dumped states and prints one verdict block per case.
 -/
 import RSSched.Driver.Net
+import RSSched.Driver.Tour
 open RSSched RSSched.Driver
 
 def processCase (text : String) : Array String :=
@@ -10,6 +11,7 @@ def processCase (text : String) : Array String :=
   let act : VM Unit :=
     match c.scope with
     | "net" => checkNet c
+    | "tour" => checkTour c
     | s => vnote s!"unknown scope {s}"
   let (_, v) := act.run {}
   let status := if v.fails > 0 then "fail" else if v.diffs > 0 then "diff" else "ok"
